@@ -776,10 +776,14 @@ func (c *configuration) write(tlsMgr *tlsManager) (err error) {
 	}
 
 	if globalContext.filters != nil {
-		globalContext.filters.WriteDiskConfig(config.Filtering)
-		config.Filters = config.Filtering.Filters
-		config.WhitelistFilters = config.Filtering.WhitelistFilters
-		config.UserRules = config.Filtering.UserRules
+		// Don't use config.Filtering as the destination, since the filter
+		// uses it as its own live configuration and its lists are only safe
+		// to access under the filter's own locks.
+		fltConf := &filtering.Config{}
+		globalContext.filters.WriteDiskConfig(fltConf)
+		config.Filters = fltConf.Filters
+		config.WhitelistFilters = fltConf.WhitelistFilters
+		config.UserRules = fltConf.UserRules
 	}
 
 	if s := globalContext.dnsServer; s != nil {
